@@ -54,9 +54,10 @@ def build(c):
         out = list(reversed(x["digest"]))
     elif m == "native":
         es = [unlimbs(e) for e in x["elems"]]
+        base = c["pat"][3] if len(c["pat"]) > 3 else MEM
         for k in range(0, len(es), 4):
-            pre += "  push.%d.%d.%d.%d push.%d mem_storew dropw\n" % (es[k], es[k + 1], es[k + 2], es[k + 3], MEM + k // 4)
-        ins = [limbs(MEM), limbs(MEM + len(es) // 4)]
+            pre += "  push.%d.%d.%d.%d push.%d mem_storew dropw\n" % (es[k], es[k + 1], es[k + 2], es[k + 3], base + k // 4)
+        ins = [limbs(base), limbs(base + len(es) // 4)]
         if p == "hash_memory_even":
             ins = list(reversed(x["state"])) + ins
         out = None
@@ -115,7 +116,7 @@ def run(tier, replay=None):
             src, ins, out = build(c)
             if out is None and c["proc"] == "hash_memory_even":
                 # [C', B', A', end_addr, end_addr, ...]
-                end = limbs(MEM + len(c["x"]["elems"]) // 4)
+                end = limbs((c["pat"][3] if len(c["pat"]) > 3 else MEM) + len(c["x"]["elems"]) // 4)
                 out = list(reversed(rf["state"])) + [end, end]
             elif out is None:
                 # digest word on the stack: element 3 on top (the hperm convention: [C, B, A] with the last state element on top)
